@@ -2,6 +2,7 @@
 #include "context.h"
 #include <atomic>
 #include <cstring>
+#include <limits>
 
 namespace sim {
 
@@ -52,6 +53,11 @@ void seam_before(SeamCtl* ctl, int method, const void* x, const void* y, size_t 
         ctl->fired_method = method;
         ctl->fired_phase = c ? (int) c->last_checkpoint_in_api : -1;
         if (c) c->event(EV_FAULT, ctl->target, ctl->armed_type, k);
+        if (ctl->armed_type == 3)
+        {
+            ctl->poison_pending = true;  // no throw: the real operator runs, its output is replaced in seam_after
+            return;
+        }
         switch (ctl->armed_type)
         {
             case 1: throw SimRuntimeFault(ctl->armed_token);
@@ -70,6 +76,21 @@ void seam_after(SeamCtl* ctl, int method, const void* y, size_t elem_size)
         ctl->setshift_total++;
         if (c) c->event(EV_APPLY_END, ctl->target, method, ctl->setshift_total);
         return;
+    }
+    if (ctl->poison_pending && y)
+    {
+        ctl->poison_pending = false;
+        const size_t bytes = (size_t) ctl->n * elem_size;
+        if (elem_size == sizeof(float))
+        {
+            float* p = (float*) const_cast<void*>(y);
+            for (size_t i = 0; i < bytes / sizeof(float); i++) p[i] = std::numeric_limits<float>::quiet_NaN();
+        }
+        else
+        {
+            double* p = (double*) const_cast<void*>(y);
+            for (size_t i = 0; i < bytes / sizeof(double); i++) p[i] = std::numeric_limits<double>::quiet_NaN();
+        }
     }
     ctl->completed_in_api++;
     ctl->completed_since_init++;
